@@ -70,6 +70,7 @@ type Step struct {
 	Op      string
 	K       string
 	V       int64
+	Reuse   bool   // put/upd/del: then read through result.Session(&gorm.Session{NewDB: true}) of the handle the write returned
 	Name    string // save point name
 	Child   *Body
 	Swallow bool // block: the parent ignores the child's error and goes on (otherwise it returns it)
@@ -123,8 +124,14 @@ func (s Step) render(sb *strings.Builder) {
 	switch s.Op {
 	case opPut, opRawPut, opUpd:
 		fmt.Fprintf(sb, "%s(%s,%d)", s.Op, s.K, s.V)
+		if s.Reuse {
+			sb.WriteString("+read")
+		}
 	case opDel:
 		fmt.Fprintf(sb, "del(%s)", s.K)
+		if s.Reuse {
+			sb.WriteString("+read")
+		}
 	case opRead:
 		sb.WriteString("read")
 	case opSP, opRBTo:
@@ -212,6 +219,9 @@ func (w *walker) steps(b *Body, kind int) int {
 		switch st.Op {
 		case opPut, opUpd, opDel:
 			w.stmts++
+			if st.Reuse {
+				w.stmts++
+			}
 			if kind == frTop && !w.cfg.SkipDef {
 				w.begins++
 				w.commits++
@@ -453,24 +463,42 @@ func (x *runner) read(h *gorm.DB, where string) error {
 
 // primitive runs a statement step on handle h.
 func (x *runner) primitive(h *gorm.DB, st Step, where string) error {
+	// reuse reads through a new session of the handle the write returned: it
+	// must run on the same connection pool / transaction as h
+	reuse := func(res *gorm.DB) error {
+		if !st.Reuse {
+			return nil
+		}
+		x.class("op:read-through-result-session")
+		return x.read(res.Session(&gorm.Session{NewDB: true}), where+" (new session of the handle returned by the write)")
+	}
 	switch st.Op {
 	case opPut:
-		err := h.Clauses(clause.OnConflict{UpdateAll: true}).Create(&KV{K: st.K, V: st.V}).Error
-		return x.stmt(fmt.Sprintf("%s put(%s,%d)", where, st.K, st.V), err, func() { x.cur[st.K] = st.V; x.wrote() })
+		res := h.Clauses(clause.OnConflict{UpdateAll: true}).Create(&KV{K: st.K, V: st.V})
+		if e := x.stmt(fmt.Sprintf("%s put(%s,%d)", where, st.K, st.V), res.Error, func() { x.cur[st.K] = st.V; x.wrote() }); e != nil {
+			return e
+		}
+		return reuse(res)
 	case opRawPut:
 		err := h.Exec("INSERT OR REPLACE INTO kv (k, v) VALUES (?, ?)", st.K, st.V).Error
 		return x.stmt(fmt.Sprintf("%s rawput(%s,%d)", where, st.K, st.V), err, func() { x.cur[st.K] = st.V; x.wrote() })
 	case opUpd:
-		err := h.Model(&KV{}).Where("k = ?", st.K).Update("v", st.V).Error
-		return x.stmt(fmt.Sprintf("%s upd(%s,%d)", where, st.K, st.V), err, func() {
+		res := h.Model(&KV{}).Where("k = ?", st.K).Update("v", st.V)
+		if e := x.stmt(fmt.Sprintf("%s upd(%s,%d)", where, st.K, st.V), res.Error, func() {
 			if _, ok := x.cur[st.K]; ok {
 				x.cur[st.K] = st.V
 			}
 			x.wrote()
-		})
+		}); e != nil {
+			return e
+		}
+		return reuse(res)
 	case opDel:
-		err := h.Where("k = ?", st.K).Delete(&KV{}).Error
-		return x.stmt(fmt.Sprintf("%s del(%s)", where, st.K), err, func() { delete(x.cur, st.K); x.wrote() })
+		res := h.Where("k = ?", st.K).Delete(&KV{})
+		if e := x.stmt(fmt.Sprintf("%s del(%s)", where, st.K), res.Error, func() { delete(x.cur, st.K); x.wrote() }); e != nil {
+			return e
+		}
+		return reuse(res)
 	case opRead:
 		return x.read(h, where)
 	}
@@ -966,6 +994,9 @@ func (g *gen) primitive(top bool) Step {
 	}
 	if op == opPut || op == opRawPut || op == opUpd {
 		st.V = g.value()
+	}
+	if op == opPut || op == opUpd || op == opDel {
+		st.Reuse = uniform(g.rt, "reuse", 5) == 0
 	}
 	return st
 }
